@@ -137,8 +137,8 @@ theorem existing_contains (a : List Entry) (h : Hash) : ∀ (acc : List Hash),
     congr 2
     rw [Bool.beq_comm]
 
-theorem difference_eq (a b : List Entry) : Generated.Go.difference a b = entryDifference a b := by
-  unfold Generated.Go.difference entryDifference
+theorem difference_eq (a b : List Entry) : Generated.Go.entryDifference a b = entryDifference a b := by
+  unfold Generated.Go.entryDifference entryDifference
   simp only
   have key : ∀ (l : List Entry) (diff : List Entry) (processed : List Hash),
       (∀ h, processed.contains h = has diff h) →
@@ -469,5 +469,99 @@ theorem traverse_eq (E : List Entry) (lt : Entry → Entry → Bool) (roots : Li
     rw [travLoop_nil_none E lt amount h1]
     intro e he
     exact h2 e (mem_goSort.mp he)
+
+/-! ## `difference` (log.go): the candidate set of `Join` -/
+
+theorem get?_isSome (E : List Entry) (h : Hash) : (get? E h).isSome = has E h := by
+  unfold get? has
+  induction E with
+  | nil => rfl
+  | cons e t ih =>
+    simp only [List.find?_cons, List.any_cons]
+    cases he : (e.hash == h) with
+    | true => simp
+    | false => simpa using ih
+
+theorem get?_some_hash {E : List Entry} {h : Hash} {e : Entry} (hg : get? E h = some e) : e.hash = h := by
+  have := List.find?_some hg
+  simpa using this
+
+theorem diffInner_eq (EB : List Entry) : ∀ (cs : List Hash) (stack : List Hash) (trav traversed : List Hash),
+    SameSet traversed trav →
+    let g := cs.foldl (fun (x : List Hash × List Hash) h =>
+      ((if (!x.2.contains h && !has EB h) = true then (x.1 ++ [h], setInsert x.2 h) else (x.1, x.2)).1,
+       (if (!x.2.contains h && !has EB h) = true then (x.1 ++ [h], setInsert x.2 h) else (x.1, x.2)).2)) (stack, traversed)
+    let r := cs.foldl (diffPush EB) (stack, trav)
+    g.1 = r.1 ∧ SameSet g.2 r.2 := by
+  intro cs
+  induction cs with
+  | nil => intro stack trav traversed hs; exact ⟨rfl, hs⟩
+  | cons c cs ih =>
+    intro stack trav traversed hs
+    simp only [List.foldl_cons, diffPush]
+    rw [hs c]
+    by_cases hc : (!trav.contains c && !has EB c) = true
+    · simp only [hc, if_true]
+      exact ih (stack ++ [c]) (c :: trav) (setInsert traversed c) (sameSet_insert hs c)
+    · simp only [hc, Bool.false_eq_true, if_false]
+      exact ih stack trav traversed hs
+
+theorem diffLoop_eq (EA HA EB : List Entry) (idB : Bytes) :
+    ∀ (fuel : Nat) (stack : List Hash) (trav traversed : List Hash) (res : List Entry),
+      SameSet traversed trav →
+      (Generated.Go.logDifference_loop1 EA HA EB idB fuel (res, stack, traversed)).1 =
+        diffLoop EA EB idB fuel stack trav res := by
+  intro fuel
+  induction fuel with
+  | zero => intro stack trav traversed res _; cases stack <;> rfl
+  | succ fuel ih =>
+    intro stack trav traversed res hs
+    cases stack with
+    | nil => simp [Generated.Go.logDifference_loop1, diffLoop]
+    | cons h rest =>
+      unfold Generated.Go.logDifference_loop1 diffLoop
+      simp only [if_true, get?_isSome]
+      cases hg : get? EA h with
+      | none =>
+        have hA : has EA h = false := by rw [← get?_isSome, hg]; rfl
+        simp only [hA, Bool.false_and, Bool.false_eq_true, if_false]
+        exact ih rest trav traversed res hs
+      | some eA =>
+        have hA : has EA h = true := by rw [← get?_isSome, hg]; rfl
+        simp only [hA, Bool.true_and, Option.getD_some]
+        by_cases hc : (!has EB h && eA.logId == idB) = true
+        · simp only [hc, if_true]
+          have hk : omSetK res h eA = omSet res eA := by
+            unfold omSetK omSet; rw [get?_some_hash hg]
+          have hs' : SameSet (setInsert traversed h) (if trav.contains h = true then trav else h :: trav) := by
+            intro x
+            rw [contains_setInsert, hs x]
+            by_cases ht : trav.contains h = true
+            · simp only [ht, if_true]
+              by_cases hx : x = h
+              · subst hx; simp [List.contains_iff_mem.mp ht]
+              · simp [hx]
+            · rw [if_neg ht, List.contains_cons, Bool.or_comm]
+          obtain ⟨h1, h2⟩ := diffInner_eq EB eA.next rest _ _ hs'
+          rw [hk, h1]
+          exact ih _ _ _ _ h2
+        · simp only [hc, Bool.false_eq_true, if_false]
+          exact ih rest trav traversed res hs
+
+/-- **`difference` of log.go (the candidates of a `Join`), translated, is the model's `difference`** -/
+theorem logDifference_eq (EA HA : List Entry) (l : Log) :
+    Generated.Go.logDifference (diffFuel EA HA) EA HA l.entries l.id = some (difference EA HA l) := by
+  unfold Generated.Go.logDifference difference
+  by_cases h0 : EA.length = 0 ∨ HA.length = 0
+  · have : (((EA.length : Int) == 0) || ((HA.length : Int) == 0) || false) = true := by
+      rcases h0 with h | h <;> simp [h]
+    simp only [this, if_true, h0]
+  · have : (((EA.length : Int) == 0) || ((HA.length : Int) == 0) || false) = false := by
+      have h1 : ¬ EA.length = 0 := fun h => h0 (Or.inl h)
+      have h2 : ¬ HA.length = 0 := fun h => h0 (Or.inr h)
+      simp only [Bool.or_false, Bool.or_eq_false_iff, beq_eq_false_iff_ne, ne_eq]
+      constructor <;> omega
+    simp only [this, Bool.false_eq_true, if_false, h0]
+    rw [diffLoop_eq EA HA l.entries l.id _ _ [] [] [] (fun _ => rfl)]
 
 end Model.SlicesGen
